@@ -23,6 +23,7 @@ int run_collapse_micro(const vf::Args&);
 int run_perm_readers(const vf::Args&);
 int run_root_race(const vf::Args&);
 int run_preempt(const vf::Args&);
+int run_parent_race(const vf::Args&);
 
 int main(int argc, char** argv) {
     google::InitGoogleLogging(argv[0]);
@@ -51,8 +52,12 @@ int main(int argc, char** argv) {
                 }
                 if (vf::now_s() - since < static_cast<double>(stall_s)) { continue; }
                 vf::Report rep(prop, mode + ":watchdog", 0);
+                const char* lc = vf::g_lifecycle_call.load();
                 if (prop == "C09") {
                     rep.violation("progress:no-operation-completed", "no API call of the workload completed within the stall limit", vf::JObj().num("stall_seconds", stall_s).str("mode", mode).done());
+                } else if (prop == "C16" && lc != nullptr) {
+                    // the epoch period is milliseconds; a lifecycle call that has not returned after stall_s seconds never will
+                    rep.violation("cycle:lifecycle-call-does-not-return", std::string(lc) + "() did not return", vf::JObj().num("stall_seconds", stall_s).str("call", lc).done());
                 } else {
                     rep.inconclusive("workload made no progress for " + std::to_string(stall_s) + " s (stuck call); see C09");
                 }
@@ -82,6 +87,7 @@ int main(int argc, char** argv) {
     if (mode == "perm_readers") { return run_perm_readers(args); }
     if (mode == "root_race") { return run_root_race(args); }
     if (mode == "preempt") { return run_preempt(args); }
+    if (mode == "parent_race") { return run_parent_race(args); }
     fprintf(stderr, "unknown --mode %s\n", mode.c_str());
     return 2;
 }
